@@ -216,4 +216,329 @@ theorem selection_spec (prefs : List Pref) (flags : List Int) (opts : List Int)
     rw [← h1]
     simp [this]
 
+/-! ### Framing loop, limit arithmetic, Decompress -/
+
+theorem u32be_beNat (s : Bytes) (h : 4 ≤ s.length) :
+    u32be s = some (Spec.beNat (s.take 4)) ∧ Spec.beNat (s.take 4) < 4294967296 := by
+  match s, h with
+  | a :: b :: c :: d :: rest, _ =>
+    have ha := a.toNat_lt
+    have hb := b.toNat_lt
+    have hc := c.toNat_lt
+    have hd := d.toNat_lt
+    simp [u32be, Spec.beNat, List.foldl]
+    omega
+
+theorem sliceFrom_eq {s : Bytes} {lo : Int} (h0 : 0 ≤ lo) (h1 : lo ≤ s.length) :
+    sliceFrom s lo = some (s.drop lo.toNat) := by simp [sliceFrom, h0, h1]
+
+theorem sliceTo_eq {s : Bytes} {hi : Int} (h0 : 0 ≤ hi) (h1 : hi ≤ s.length) :
+    sliceTo s hi = some (s.take hi.toNat) := by simp [sliceTo, h0, h1]
+
+theorem sliceFrom_val {s t : Bytes} {lo : Int} (h : sliceFrom s lo = some t) :
+    0 ≤ lo ∧ lo ≤ s.length ∧ t = s.drop lo.toNat := by
+  unfold sliceFrom at h
+  split at h
+  · rename_i hc; cases h; exact ⟨hc.1, hc.2, rfl⟩
+  · cases h
+
+theorem sliceTo_val {s t : Bytes} {hi : Int} (h : sliceTo s hi = some t) :
+    0 ≤ hi ∧ hi ≤ s.length ∧ t = s.take hi.toNat := by
+  unfold sliceTo at h
+  split at h
+  · rename_i hc; cases h; exact ⟨hc.1, hc.2, rfl⟩
+  · cases h
+
+theorem toInt32_nonneg {u : Nat} (hu : u < 4294967296) (h : ¬ toInt32 u < 0) : u < 2147483648 ∧ toInt32 u = (u : Int) := by
+  unfold toInt32 at *
+  split at h
+  · omega
+  · rename_i hlt
+    constructor
+    · omega
+    · simp [hlt]
+
+/-- No slice of the framing loop is ever out of range, and a source on which the loop succeeds is well framed
+(contrapositive: malformed framing is answered with an error). -/
+theorem xerialLoop_safe (lib : Lib) (max : Nat) (dst src : Bytes) :
+    xerialLoop lib max dst src ≠ .panic ∧
+    (∀ out, xerialLoop lib max dst src = .ok out → (Spec.frames src).isSome = true) := by
+  fun_induction xerialLoop lib max dst src
+  case case1 dst src h0 =>
+    refine ⟨by simp, fun out _ => ?_⟩
+    rw [Spec.frames]; simp [h0]
+  case case2 => exact ⟨by simp, fun out h => by cases h⟩
+  case case3 dst src h0 h4 hx =>
+    have := (u32be_beNat src (by omega)).1
+    rw [this] at hx; cases hx
+  case case4 dst src h0 h4 u hx hs =>
+    rw [sliceFrom_eq (by omega) (by omega)] at hs; cases hs
+  case case5 => exact ⟨by simp, fun out h => by cases h⟩
+  case case6 dst src h0 h4 u hx size src1 h1 hc hs =>
+    have hc' : 0 ≤ size ∧ size ≤ (src1.length : Int) := by omega
+    rw [sliceTo_eq hc'.1 hc'.2] at hs; cases hs
+  case case7 => exact ⟨by simp, fun out h => by cases h⟩
+  case case8 => exact ⟨by simp, fun out h => by cases h⟩
+  case case9 => exact ⟨by simp, fun out h => by cases h⟩
+  case case10 dst src h0 h4 u hx size src1 h1 hc blk hb l hl hlim chunk hd hs =>
+    have hc' : 0 ≤ size ∧ size ≤ (src1.length : Int) := by omega
+    rw [sliceFrom_eq hc'.1 hc'.2] at hs; cases hs
+  case case11 dst src h0 h4 u hx size src1 h1 hc blk hb l hl hlim chunk hd src2 h2 ih =>
+    refine ⟨ih.1, fun out h => ?_⟩
+    have hfr := ih.2 out h
+    have hu := u32be_beNat src (by omega)
+    rw [hu.1] at hx
+    have hu' : Spec.beNat (src.take 4) = u := Option.some.inj hx
+    have v1 := sliceFrom_val h1
+    have v2 := sliceFrom_val h2
+    have hsz : ¬ size < 0 := by omega
+    have t := toInt32_nonneg (hu' ▸ hu.2) hsz
+    have hsize : size = (u : Int) := t.2
+    have e1 : src1 = src.drop 4 := by simpa using v1.2.2
+    have hlen : u ≤ (src.drop 4).length := by
+      have : size ≤ (src1.length : Int) := by omega
+      rw [hsize, e1] at this; omega
+    have e2 : src2 = (src.drop 4).drop u := by
+      rw [v2.2.2, e1, hsize]; simp
+    rw [Spec.frames]
+    rw [dif_neg h0, dif_neg h4, hu', if_neg (by omega)]
+    rw [← e2]
+    cases hf : Spec.frames src2 with
+    | none => rw [hf] at hfr; cases hfr
+    | some bs => simp
+
+/-- (K1) `s2.Decode` returns exactly `s2.DecodedLen` bytes. -/
+def DecodeHonoursLen (lib : Lib) : Prop := ∀ b c, lib.snapDec b = some c → lib.snapLen b = some c.length
+
+theorem xerialLoop_bounded (lib : Lib) (max : Nat) (hK : DecodeHonoursLen lib) (dst src : Bytes) :
+    dst.length ≤ max → ∀ out, xerialLoop lib max dst src = .ok out → out.length ≤ max := by
+  fun_induction xerialLoop lib max dst src
+  case case1 => intro hd out h; cases h; exact hd
+  case case2 => intro _ out h; cases h
+  case case3 => intro _ out h; cases h
+  case case4 => intro _ out h; cases h
+  case case5 => intro _ out h; cases h
+  case case6 => intro _ out h; cases h
+  case case7 => intro _ out h; cases h
+  case case8 => intro _ out h; cases h
+  case case9 => intro _ out h; cases h
+  case case10 => intro _ out h; cases h
+  case case11 dst src h0 h4 u hx size src1 h1 hc blk hb l hl hlim chunk hd src2 h2 ih =>
+    intro hdst out h
+    have := hK blk chunk hd
+    rw [hl] at this
+    have hl' : l = chunk.length := Option.some.inj this
+    apply ih _ out h
+    rw [List.length_append]
+    omega
+
+/-- the length field the Java xerial writer puts in front of a block -/
+def be32 (n : Nat) : Bytes :=
+  [UInt8.ofNat (n / 16777216 % 256), UInt8.ofNat (n / 65536 % 256), UInt8.ofNat (n / 256 % 256), UInt8.ofNat (n % 256)]
+
+def frame (b : Bytes) : Bytes := be32 b.length ++ b
+
+theorem u32be_be32 (n : Nat) (h : n < 4294967296) (rest : Bytes) : u32be (be32 n ++ rest) = some n := by
+  simp [be32, u32be]
+  omega
+
+theorem xerialLoop_concat (lib : Lib) (max : Nat) (dec : Bytes → Bytes) : ∀ (bs : List Bytes) (dst : Bytes),
+    (∀ b ∈ bs, b.length < 2147483648 ∧ lib.snapLen b = some (dec b).length ∧ lib.snapDec b = some (dec b)) →
+    dst.length + ((bs.map dec).flatten).length ≤ max →
+    xerialLoop lib max dst (bs.flatMap frame) = .ok (dst ++ (bs.map dec).flatten) := by
+  intro bs
+  induction bs with
+  | nil => intro dst _ _; rw [xerialLoop]; simp
+  | cons b bs ih =>
+    intro dst hb hmax
+    have hb0 := hb b (by simp)
+    have hlen : (be32 b.length ++ (b ++ List.flatMap frame bs)).length ≥ 4 := by simp [be32]
+    have e : (b :: bs).flatMap frame = be32 b.length ++ (b ++ bs.flatMap frame) := by simp [frame]
+    rw [e, xerialLoop]
+    rw [dif_neg (by omega), dif_neg (by omega), u32be_be32 _ (by omega)]
+    have hsz : toInt32 b.length = (b.length : Int) := by
+      unfold toInt32; rw [if_neg (by omega)]
+    have s1 : sliceFrom (be32 b.length ++ (b ++ List.flatMap frame bs)) 4 = some (b ++ List.flatMap frame bs) := by
+      rw [sliceFrom_eq (by omega) (by omega)]
+      simp [be32]
+    have s2 : sliceTo (b ++ List.flatMap frame bs) (toInt32 b.length) = some b := by
+      rw [hsz, sliceTo_eq (by omega) (by rw [List.length_append]; omega)]
+      simp
+    have s3 : sliceFrom (b ++ List.flatMap frame bs) (toInt32 b.length) = some (List.flatMap frame bs) := by
+      rw [hsz, sliceFrom_eq (by omega) (by rw [List.length_append]; omega)]
+      simp
+    simp only [List.map_cons, List.flatten_cons, List.length_append] at hmax
+    simp only []
+    split
+    · rename_i h; rw [s1] at h; cases h
+    · rename_i src1 h
+      rw [s1] at h; cases h
+      rw [if_neg (by rw [hsz, List.length_append]; omega)]
+      split
+      · rename_i h; rw [s2] at h; cases h
+      · rename_i blk h
+        rw [s2] at h; cases h
+        rw [hb0.2.1]
+        simp only
+        rw [if_neg (by omega), hb0.2.2]
+        simp only
+        split
+        · rename_i h; rw [s3] at h; cases h
+        · rename_i src2 h
+          rw [s3] at h; cases h
+          rw [ih (dst ++ dec b) (fun b' hb' => hb b' (List.mem_cons_of_mem _ hb')) (by rw [List.length_append]; omega)]
+          simp
+
+theorem limitedCopy_bounded (max : Nat) (s : Stream) (out : Bytes) (h : limitedCopy max s = .ok out) :
+    out.length ≤ max ∧ out = s.bytes ∧ s.clean = true := by
+  unfold limitedCopy at h
+  split at h
+  · cases h
+  · split at h
+    · split at h <;> cases h
+    · split at h
+      · cases h
+      · rename_i h1 h2 h3
+        cases h
+        refine ⟨by omega, rfl, by simpa using h3⟩
+
+theorem limitedCopy_ne_panic (max : Nat) (s : Stream) : limitedCopy max s ≠ .panic := by
+  unfold limitedCopy
+  repeat' split
+  all_goals simp
+
+theorem xerialDecode_ne_panic (lib : Lib) (max : Nat) (dst src : Bytes) (h : 16 ≤ src.length) :
+    xerialDecode lib max dst src ≠ .panic := by
+  unfold xerialDecode
+  rw [sliceFrom_eq (by omega) (by omega)]
+  exact (xerialLoop_safe lib max dst _).1
+
+theorem decompress_ne_panic (lib : Lib) (max : Nat) (codec : Int) (src : Bytes) :
+    decompress lib max codec src ≠ .panic := by
+  unfold decompress
+  split
+  · simp
+  · split
+    · exact limitedCopy_ne_panic _ _
+    · split
+      · split
+        · rename_i hx
+          have : 16 ≤ src.length := by
+            have := (Bool.and_eq_true _ _).mp hx
+            have := of_decide_eq_true this.1
+            omega
+          exact xerialDecode_ne_panic lib max [] src this
+        · repeat' split
+          all_goals simp
+      · split
+        · exact limitedCopy_ne_panic _ _
+        · repeat' split
+          all_goals simp
+
+/-- (K2) `zstd.DecodeAll` under `WithDecoderMaxMemory(max)` returns at most `max` bytes. -/
+def ZstdHonoursLimit (lib : Lib) : Prop := ∀ max src d, lib.zstd max src = some d → d.length ≤ max
+
+theorem decompress_bounded (lib : Lib) (max : Nat) (hK1 : DecodeHonoursLen lib) (hK2 : ZstdHonoursLimit lib)
+    (codec : Int) (hc : codec ≠ 0) (src out : Bytes) (h : decompress lib max codec src = .ok out) :
+    out.length ≤ max := by
+  unfold decompress at h
+  have hc' : (codec == 0) = false := by simpa using hc
+  rw [hc'] at h
+  simp only [Bool.false_eq_true, if_false] at h
+  split at h
+  · exact (limitedCopy_bounded _ _ _ h).1
+  · split at h
+    · split at h
+      · unfold xerialDecode at h
+        split at h
+        · cases h
+        · exact xerialLoop_bounded lib max hK1 [] _ (by simp) out h
+      · split at h
+        · cases h
+        · rename_i l hl
+          split at h
+          · cases h
+          · rename_i hle
+            split at h
+            · cases h
+            · rename_i d hd
+              cases h
+              have := hK1 src out hd
+              rw [hl] at this
+              have : l = out.length := Option.some.inj this
+              omega
+    · split at h
+      · exact (limitedCopy_bounded _ _ _ h).1
+      · split at h
+        · split at h
+          · cases h
+          · rename_i d hd
+            cases h
+            exact hK2 max src out hd
+        · cases h
+
+theorem choose_mem (opts : List Int) (dis : Bool) : choose opts dis = 0 ∨ choose opts dis ∈ opts := by
+  induction opts with
+  | nil => left; rfl
+  | cons o rest ih =>
+    unfold choose
+    split
+    · rcases ih with h | h
+      · left; exact h
+      · right; exact List.mem_cons_of_mem _ h
+    · right; simp
+
+/-- (K3) the decoders invert the encoders on what the encoders emit (and raw snappy never starts with the xerial magic). -/
+structure RoundTrips (enc : Enc) (lib : Lib) (max : Nat) : Prop where
+  gzip : ∀ lvl src out, enc 1 lvl src = some out → (lib.stream 1 out).bytes = src ∧ (lib.stream 1 out).clean = true
+  lz4 : ∀ lvl src out, enc 3 lvl src = some out → (lib.stream 3 out).bytes = src ∧ (lib.stream 3 out).clean = true
+  snappy : ∀ lvl src out, enc 2 lvl src = some out →
+    lib.snapLen out = some src.length ∧ lib.snapDec out = some src ∧ (out.length > 16 && hasPrefix out xerialPfx) = false
+  zstd : ∀ lvl src out, enc 4 lvl src = some out → src.length ≤ max → lib.zstd max out = some src
+
+theorem roundtrip (enc : Enc) (lib : Lib) (max : Nat) (hrt : RoundTrips enc lib max)
+    (prefs : List Pref) (opts flags : List Int) (hopts : ∀ o ∈ opts, 0 ≤ o ∧ o ≤ 4)
+    (src : Bytes) (hlen : src.length ≤ max) (bytes : Bytes)
+    (h : (compress enc prefs opts flags src).1 = some bytes) :
+    decompress lib max (compress enc prefs opts flags src).2 bytes = .ok src := by
+  unfold compress at *
+  by_cases h0 : choose opts (disableZstd flags) = 0
+  · simp [h0] at h ⊢
+    simp [decompress, h]
+  · have hmem : choose opts (disableZstd flags) ∈ opts := by
+      rcases choose_mem opts (disableZstd flags) with h | h
+      · exact absurd h h0
+      · exact h
+    have hr := hopts _ hmem
+    generalize choose opts (disableZstd flags) = use at *
+    have h0' : (use == 0) = false := by simpa using h0
+    simp only [h0', Bool.false_eq_true, if_false] at h ⊢
+    cases he : enc use (levelOf prefs use) src with
+    | none => rw [he] at h; simp at h
+    | some out =>
+      rw [he] at h
+      simp only at h ⊢
+      cases h
+      have hcases : use = 1 ∨ use = 2 ∨ use = 3 ∨ use = 4 := by omega
+      rcases hcases with h1 | h1 | h1 | h1
+      · subst h1
+        have := hrt.gzip _ _ _ he
+        unfold decompress limitedCopy
+        simp [this.1, this.2]
+        rw [if_neg (by omega), if_neg (by omega)]
+      · subst h1
+        have := hrt.snappy _ _ _ he
+        unfold decompress
+        simp [this.1, this.2.1, this.2.2]
+        omega
+      · subst h1
+        have := hrt.lz4 _ _ _ he
+        unfold decompress limitedCopy
+        simp [this.1, this.2]
+        rw [if_neg (by omega), if_neg (by omega)]
+      · subst h1
+        have := hrt.zstd _ _ _ he hlen
+        unfold decompress
+        simp [this]
+
 end Proof.C19
